@@ -372,6 +372,8 @@ class Result:
             cov.setdefault("discharged", self.proof["discharged"])
             cov.setdefault("theorems", self.proof["theorems"])
             cov.setdefault("assumptions_per_theorem", self.proof["assumptions"])
+            if "coqchk" in self.proof:
+                cov.setdefault("coqchk", self.proof["coqchk"])
         cov.setdefault("checker_cmd", "make -C /verif/coq (coq_makefile, full .vo) && coqc -Q . PV Properties/%s.v ; ./check %s" % (pid, pid))
         cov.setdefault("trusted_base", TRUSTED_BASE)
         ev = {
@@ -393,5 +395,16 @@ def proof_step(res, pid, cone_targets=None):
     """Run the proof obligations; a broken obligation is reported (the caller still runs the
     correspondence to look for a concrete failing input)."""
     pr = proof_obligations(pid, cone_targets)
+    if pr["ok"] and getattr(res, "tier", "quick") == "thorough":
+        # independent re-check of the property file and everything it depends on; the axiom summary must be empty
+        with Lock("coq"):
+            rc0, _ = sh(["timeout", "900", "coqc", "-Q", ".", "PV", "Properties/%s.v" % pid], cwd=COQ, timeout=960)
+            rc, out = sh(["timeout", "1500", "coqchk", "-silent", "-o", "-Q", ".", "PV", "PV.Properties.%s" % pid], cwd=COQ, timeout=1560)
+        ok = rc0 == 0 and rc == 0 and "* Axioms: <none>" in out and "type-in-type: <none>" in out and "unsafe (co)fixpoints: <none>" in out \
+            and "positivity is assumed: <none>" in out
+        pr["coqchk"] = "Axioms: <none>" if ok else out[-1500:]
+        if not ok:
+            pr["ok"] = False
+            pr["problems"].append("coqchk does not accept Properties/%s.v with an empty axiom summary: %s" % (pid, out[-800:]))
     res.proof = pr
     return pr
